@@ -40,6 +40,11 @@ FINDINGS = {
                                                  "buffer grows past 65535 entries, CompressEntries stores uint16(len(entries)) in the block "
                                                  "header, and the block written once the fault clears carries a wrapped count: ParseBlock "
                                                  "rejects it and the whole file, earlier durable records included, can no longer be loaded",
+    "C25-deleted-record-resurrects": "WriteEntry reports the error of the flush it triggers although the entry stays queued: the swamp gets no "
+                                     "file pointer, a later Delete writes no tombstone, the next Sync flushes the restored insert and the "
+                                     "deleted record is back after reload",
+    "C25-failed-close-kills-writer": "a Close that fails closes the descriptor while the chronicler keeps the writer: every later "
+                                     "Write/Sync/Close fails with 'file already closed' although the fault cleared",
     "C25-fsync-error": "an fsync error made data unreadable",
     "C25-unexplained-loss": "records missing after a fault-free run",
 }
@@ -58,6 +63,17 @@ def spec_scan(ops, impl):
             spec = {}
         elif f[0] == "act" and f[1] == "w":
             S.apply_items(spec, f[2])
+        elif f[0] == "sw" and f[1] == "new":
+            spec = {}
+        elif f[0] == "sw" and f[1] == "save":
+            spec[int(f[2])] = f[3]
+        elif f[0] == "sw" and f[1] == "del":
+            spec.pop(int(f[2]), None)
+        elif f[0] == "sw" and f[1] == "load":
+            got = impl[i].split(" ")[1] if " " in impl[i] else "?"
+            if got != S.fmt_state(spec):
+                bad.append((i, "a real swamp (write ticks, file-pointer events on) was closed after the fault had cleared; a fresh load "
+                               "returns %s, the swamp held %s" % (got, S.fmt_state(spec)), "loss"))
         elif f[0] == "act" and f[1] == "load":
             got = impl[i].split(" ")[1] if " " in impl[i] else "?"
             if got != S.fmt_state(spec):
